@@ -138,7 +138,8 @@ InBody(c) ==
                 IN IF c2.k < att THEN c2 ELSE InDone(c2)
    ELSE InDone(c)
 InDone(c) ==
-   IF c.r.off = c.r.size /\ ~(Bug = "lazy_deliver" /\ c.k > 0)
+   IF Bug = "lazy_deliver" /\ c.r.off = c.r.size /\ c.k > 0 THEN c      \* (wrong variant: the completed frame is looked at by the next call only)
+   ELSE IF c.r.off = c.r.size
    THEN \* UnflattenHeaderAndMessage, CallMessageReceivedFromGateway, _recvBuffer.Reset()
         LET cells == TakeS(c.r.buf, c.r.size)
             f     == FrameOfHeader(TakeS(cells, HS))
